@@ -171,8 +171,9 @@ Definition find_from (p s : str) (start : Z) : Z :=
   let r := find p (slice_from s start) in
   if (r <? 0)%Z then (-1)%Z else (r + start)%Z.
 
-(** [decide_literal_type(a_literal)] with [base_namespace=None] *)
-Definition decide_literal_type (l : str) : str + eerr :=
+(** [decide_literal_type(a_literal)] with [base_namespace=None], old text: one
+    chain of tests on the whole token *)
+Definition decide_literal_type_old (l : str) : str + eerr :=
   let q3 := dq ++ Str "^^" in
   if (rfind dq l <? rfind (Str "@") l)%Z then inl c_LANG_STRING_TYPE
   else if negb (contains q3 l) then inl c_STRING_TYPE
@@ -185,6 +186,27 @@ Definition decide_literal_type (l : str) : str + eerr :=
        then inl (slice l (find q3 l + 4) (-1))
   else if suffixb (Str ">") (strip l) then inl (slice l (find q3 l + 4) (-1))
   else inr XRuntime.
+
+(** new text (C06 repair B): the kind is read from what follows the last
+    double quote; a token without quote has no such suffix and keeps the old
+    rules 1-2 *)
+Definition decide_literal_type_fx (l : str) : str + eerr :=
+  let q := rfind dq l in
+  let suffix := if (q <? 0)%Z then [] else strip (slice_from l (q + 1)) in
+  if prefixb (Str "@") suffix then inl c_LANG_STRING_TYPE
+  else if negb (prefixb (Str "^^") suffix) then
+         (if (rfind dq l <? rfind (Str "@") l)%Z then inl c_LANG_STRING_TYPE else inl c_STRING_TYPE)
+  else
+    let t := slice_from suffix 2 in
+    if prefixb (Str "xsd:") t then inl (c_XSD_NAMESPACE ++ slice_from t 4)
+    else if prefixb (Str "rdf:") t then inl (c_RDF_SYNTAX_NAMESPACE ++ slice_from t 4)
+    else if prefixb (Str "dt:") t then inl (c_DT_NAMESPACE ++ slice_from t 3)
+    else if prefixb (Str "geo:") t then inl (c_OPENGIS_NAMESPACE ++ slice_from t 4)
+    else if prefixb (Str "<") t && suffixb (Str ">") t then inl (slice t 1 (-1))
+    else inr XRuntime.
+
+Definition decide_literal_type (l : str) : str + eerr :=
+  if dlt_from_suffix then decide_literal_type_fx l else decide_literal_type_old l.
 
 (** *** [float(a_token)] and [_is_integer]: which unquoted tokens are numbers.
 
